@@ -61,15 +61,15 @@ type boolSim struct {
 }
 
 type simState struct {
-	env     map[ssa.Value]tri
-	deps    map[ssa.Value]string // unknown atom behind an undetermined value
-	flags   map[string]tri
-	fdeps   map[string]string
-	stored  map[string]bool
-	bind    map[*ssa.Parameter]ssa.Value
-	visits  map[*ssa.BasicBlock]int
-	recvs   map[ssa.Value]bool
-	outer   *simState
+	env    map[ssa.Value]tri
+	deps   map[ssa.Value]string // unknown atom behind an undetermined value
+	flags  map[string]tri
+	fdeps  map[string]string
+	stored map[string]bool
+	bind   map[*ssa.Parameter]ssa.Value
+	visits map[*ssa.BasicBlock]int
+	recvs  map[ssa.Value]bool
+	outer  *simState
 }
 
 func (st *simState) depth() int {
